@@ -182,37 +182,53 @@ def _replace(x, path, new):
     return y
 
 
-def _direct_node_children(v):
-    out = []
+class ShrinkCfg:
+    """How the generic shrinker sees a spec.  Modules may provide
+    SHRINK = {"is_node": fn(x)->bool, "is_atom": fn(node)->bool, "leaves": [...]}"""
 
-    def rec(c):
-        if is_node_spec(c):
-            out.append(c)
-        elif isinstance(c, list):
-            for d in c:
-                rec(d)
-    for c in v[1:]:
-        rec(c)
-    return out
+    def __init__(self, module=None):
+        cfg = getattr(module, "SHRINK", {}) if module is not None else {}
+        self.is_node = cfg.get("is_node", is_node_spec)
+        self.is_atom = cfg.get(
+            "is_atom", lambda v: v[0] in ("Var", "Const", "Frac"))
+        self.leaves = cfg.get("leaves", _LEAVES)
+
+    def direct_children(self, v):
+        out = []
+
+        def rec(c):
+            if self.is_node(c):
+                out.append(c)
+            elif isinstance(c, list):
+                for d in c:
+                    rec(d)
+        for c in v[1:]:
+            rec(c)
+        return out
 
 
 _LEAVES = (["Const", "int", 0], ["Const", "int", 1], ["Const", "int", 2],
            ["Var", "x"])
 
 
-def _candidates(spec):
+def _candidates(spec, cfg):
     for pth, v in _paths(spec):
-        if is_node_spec(v):
-            if v[0] in ("Var", "Const", "Frac"):
-                if v[0] == "Const" and isinstance(v[2], (int, float)) \
+        if isinstance(v, list) and cfg.is_node(v):
+            if cfg.is_atom(v):
+                if len(v) == 3 and isinstance(v[2], (int, float)) \
                         and not isinstance(v[2], bool):
                     for nv in _smaller_numbers(v[2]):
                         yield _replace(spec, pth, [v[0], v[1], nv])
                 continue
-            for c in _direct_node_children(v):
+            for c in cfg.direct_children(v):
                 yield _replace(spec, pth, c)
-            for leaf in _LEAVES:
+            for leaf in cfg.leaves:
                 yield _replace(spec, pth, list(leaf))
+            # also try dropping list elements inside the node (arity)
+            for i, c in enumerate(v[1:], 1):
+                if isinstance(c, list) and c and not cfg.is_node(c):
+                    for j in range(len(c)):
+                        yield _replace(spec, (*pth, i), c[:j] + c[j + 1:])
         elif isinstance(v, list):
             if len(v) > 0:
                 for i in range(len(v)):
@@ -240,13 +256,15 @@ def _smaller_numbers(v):
             yield c
 
 
-def shrink(spec, still_fails, max_steps=SHRINK_STEPS, max_seconds=15.0):
+def shrink(spec, still_fails, max_steps=SHRINK_STEPS, max_seconds=15.0,
+           module=None):
+    cfg = ShrinkCfg(module)
     steps = 0
     improved = True
     t_end = time.time() + max_seconds
     while improved and steps < max_steps:
         improved = False
-        for cand in _candidates(spec):
+        for cand in _candidates(spec, cfg):
             steps += 1
             if steps > max_steps or time.time() > t_end:
                 improved = False
@@ -624,7 +642,7 @@ def _main(module, prop, tier, seed, replay, t0):
                        for f in res.fails)
         try:
             small = shrink(spec, still_fails, max_seconds=max(
-                0.5, min(15.0, shrink_deadline - time.time())))
+                0.5, min(15.0, shrink_deadline - time.time())), module=module)
         except Exception:
             small = spec
         res = run_check(module, sub, small)
